@@ -10,9 +10,12 @@ from ..pkg import PKG, Case, index_stubs, pack
 from ..report import Report
 from .c05 import norm
 
-TYPES = [None, "int", "str", "list[int]", "tuple[int, str]", "tuple[str, int]"]
+# SameK / OtherK: classes that EVERY case module defines under these short names (the same text means a different class per module)
+TYPES = [None, "int", "str", "list[int]", "tuple[int, str]", "tuple[str, int]", "SameK", "OtherK"]
+LOCAL_HEADER = "class SameK:\n    pass\n\n\nclass OtherK:\n    pass\n\n\n"
 _I, _S = frozenset([("n", "Int", ())]), frozenset([("n", "String", ())])
-IMG = {"int": _I, "str": _S, "list[int]": frozenset([("n", "List", (_I,))]), "tuple[int, str]": frozenset([("n", "Tuple", (_I, _S))]), "tuple[str, int]": frozenset([("n", "Tuple", (_S, _I))])}
+IMG = {"int": _I, "str": _S, "list[int]": frozenset([("n", "List", (_I,))]), "tuple[int, str]": frozenset([("n", "Tuple", (_I, _S))]), "tuple[str, int]": frozenset([("n", "Tuple", (_S, _I))]),
+       "SameK": frozenset([("n", "SameK", ())]), "OtherK": frozenset([("n", "OtherK", ())])}
 STYLES = ["NUMPYDOC", "GOOGLE", "REST"]
 OWNERS = ["function", "method", "ctor"]
 
@@ -108,7 +111,7 @@ def lab(owner, params, results) -> str:
 
 def run(rep: Report, tier: str, seed: int) -> None:
     rep.rule = (
-        "per parameter and per result: hint in {absent,int,str,list[int],tuple[int,str],tuple[str,int]} x docstring type in the same set; one varied parameter (alone and next to a fixed one) for function/method/constructor, one varied result, two results (numpydoc)"
+        "per parameter and per result: hint in {absent,int,str,list[int],tuple[int,str],tuple[str,int],SameK,OtherK} x docstring type in the same set (SameK/OtherK: classes every case module defines under the same short names); one varied parameter (alone and next to a fixed one) for function/method/constructor, one varied result, two results (numpydoc)"
         + ("; full product for two parameters x 5 result situations" if tier == "thorough" else "")
         + "; x 3 structured docstring styles; every case analysed under all four (preference, warning) pairs; distinct = distinct (style, case label)"
     )
@@ -132,7 +135,7 @@ def run(rep: Report, tier: str, seed: int) -> None:
                 groups.append(([key], Opts(docstyle=style, tsp=tsp, tsw=tsw)))
 
     def build(keys):
-        return pack(all_cases[keys[0]], per_module=150)
+        return pack(all_cases[keys[0]], per_module=150, header=lambda name: LOCAL_HEADER)
 
     def expected_type(hint, doc, tsp):
         if hint and doc:
@@ -151,10 +154,18 @@ def run(rep: Report, tier: str, seed: int) -> None:
                 rep.violation("warning-option-does-not-change-output", f"warn-vs-ignore:{tsp}|{style}", {"files_differ": diff})
             else:
                 rep.ok("warning-option-does-not-change-output")
+        # a type written in a module denotes that module's own class: no stub may import SameK / OtherK from elsewhere
+        for combo, ix in idx.items():
+            for path, m in ix.modules.items():
+                foreign = [f"from {i.package} import {i.name}" for i in m.imports if i.name in ("SameK", "OtherK")]
+                if foreign:
+                    rep.violation("type-denotes-own-module-class", f"foreign-import:{combo[0]}|{style}", {"file": path, "imports": foreign[:3]}, files=None, src_rel=PKG, opts=Opts(docstyle=style, tsp=combo[0], tsw=combo[1]))
+                else:
+                    rep.ok("type-denotes-own-module-class")
         for c in cases:
             owner, params, results = c.meta
             rep.case(f"{style}|{c.label}", True, sample={"style": style, "case": c.label, "python": c.src} if c.cid % 409 == 0 else None)
-            mini = {f"{PKG}/__init__.py": "", f"{PKG}/m.py": c.src}
+            mini = {f"{PKG}/__init__.py": "", f"{PKG}/m.py": LOCAL_HEADER + c.src}
 
             def viol(clause, feat, detail, opts, c=c, mini=mini) -> None:
                 rep.violation(clause, f"{clause}:{feat}|{style}", {"style": style, "case": c.label, "python": c.src, **detail}, files=mini, src_rel=PKG, opts=opts)
